@@ -1033,8 +1033,8 @@ def parts(tier):
         Part("block_vectors", check=check_block, enum=enum_block, quick=(8, 0), thorough=(8, 0), exhaustive=True),
         Part("block", check=check_block, strategy=strat_block, quick=(8, 400), thorough=(16, 6000)),
         Part("vectors", check=check_mode, enum=enum_vectors, quick=(8, 0), thorough=(8, 0), exhaustive=True),
-        Part("modes", check=check_mode, strategy=strat_mode, quick=(16, 400), thorough=(16, 6000)),
+        Part("modes", check=check_mode, strategy=strat_mode, quick=(16, 500), thorough=(16, 5000)),
         Part("adapter_grid", check=check_adapter, enum=enum_adapter_grid, quick=(8, 0), thorough=(16, 0), exhaustive=True),
-        Part("adapter", check=check_adapter, strategy=strat_adapter, quick=(16, 250), thorough=(16, 4000)),
-        Part("history", driver=Driver, rules=history_rules(tier), quick=(16, 60), thorough=(16, 800), steps=(25, 50)),
+        Part("adapter", check=check_adapter, strategy=strat_adapter, quick=(16, 300), thorough=(16, 4000)),
+        Part("history", driver=Driver, rules=history_rules(tier), quick=(16, 100), thorough=(16, 800), steps=(25, 50)),
     ]
